@@ -206,10 +206,10 @@ def run():
         if r['kind'] == 'run' and r['npids'] > 1 and r['level'] > 0:
             ctx.nontrivial((r['variant'], r['nens'], r['nproc'], r['mode'], r['seed'], r['scripted']))
     ctx.sample({k: v for k, v in recs[0].items()})
-    ctx.sample({k: v for k, v in [r for r in recs if r['kind'] == 'run' and not r['scripted']][0].items()})
+    ctx.sample_first([r for r in recs if r['kind'] == 'run' and not r['scripted']])
     lay = [r for r in recs if r['kind'] == 'layers']
     if lay:
-        ctx.sample(lay[0])
+        ctx.sample_first(lay)
     ctx.leg('B', scripted_runs=nB, schedules_used=len(scheds_b))
     ctx.leg('C', real_pool_runs=len(grid), multi_process_runs=sum(1 for r in recs if r.get('npids', 0) > 1), ceemd_layerwise_runs=len(lay))
     seen = {}
